@@ -3,6 +3,7 @@
  */
 
 #include "types.h"
+#include "convert.h"
 
 #include "message.h"
 
